@@ -347,6 +347,8 @@ type checker struct {
 	formsFailed  int
 	rounds       int
 	byClass      map[string]int
+	classMembers map[string]int // class id -> forms of the class that were run
+	classDeviate map[string]int // class id -> of which deviating
 	corroborated map[string]int // finding signature -> native corroborations done
 	nativeRuns   int
 	nativeForms  int
@@ -377,6 +379,9 @@ func (ck *checker) process(bs []*beh, par int, nativeAll bool) {
 			cs.prog = render(&cs.b.H, cs.b.Forms, cs.pending)
 			if cs.fullProg == nil {
 				cs.fullProg = cs.prog
+				if d := os.Getenv("VERIF_C05_SAVE"); d != "" && cs.b.H.N >= 3 && i < 3 {
+					os.WriteFile(filepath.Join(d, fmt.Sprintf("prog%d.go", i)), []byte(cs.prog.Src), 0o644)
+				}
 			}
 			jobs[i] = childJob{Src: cs.prog.Src}
 		}
@@ -455,6 +460,18 @@ func (ck *checker) process(bs []*beh, par int, nativeAll bool) {
 		hh := fnv.New64a()
 		hh.Write([]byte(hk))
 		hs := strconv.FormatUint(hh.Sum64(), 36)
+		ck.mu.Lock()
+		for fi := range b.Forms {
+			if x := b.Forms[fi].X; x != "" {
+				ck.classMembers[classID(x)]++
+			}
+		}
+		for _, f := range cs.fails {
+			if x := b.Forms[f.fi].X; x != "" {
+				ck.classDeviate[classID(x)]++
+			}
+		}
+		ck.mu.Unlock()
 		for fi := range b.Forms {
 			f := &b.Forms[fi]
 			c.Count(hs+"#"+f.key(), f.D != "nil" && f.K != "inil")
@@ -558,9 +575,15 @@ func lastLines(s string, n int) string {
 
 // ---------------------------------------------------------------------------
 
+// cfg writes a TLC configuration. The seeded parts (sub-sampled enumerations, simulation) do
+// not generate the forms of the listed classes (exclude); the exhaustive parts do.
 func cfg(spec string, maxN int, shape string, percent int, seed int64, lo, hi int, invs string) []byte {
-	return []byte(fmt.Sprintf("SPECIFICATION %s\nCONSTANTS MaxN = %d Shape = %q Percent = %d Seed = %d Lo = %d Hi = %d\nINVARIANTS %s\n",
-		spec, maxN, shape, percent, seed, lo, hi, invs))
+	exclude := "FALSE"
+	if percent < 100 || spec == "SpecSim" {
+		exclude = "TRUE"
+	}
+	return []byte(fmt.Sprintf("SPECIFICATION %s\nCONSTANTS MaxN = %d Shape = %q Percent = %d Seed = %d Lo = %d Hi = %d Exclude = %s\nINVARIANTS %s\n",
+		spec, maxN, shape, percent, seed, lo, hi, exclude, invs))
 }
 
 const allInvs = "InvSubset InvLookupFunction InvMethodSetRule InvAssertIffImpl InvIfaceCopy InvSwitchFirst Emit"
@@ -577,7 +600,7 @@ type tlcJob struct {
 }
 
 func run(c *fw.Ctx) error {
-	c.Rule = "a case is one (hierarchy, form): hierarchies generated by Dispatch.tla (all single-embedding chains and all two-embedding shapes with n <= 3, seeded simulation of n = 4 with shadowing), each crossed with every legal call / interface / assertion / type-switch / host-interface form on a T1 object; forms whose dynamic value is a nil interface are counted as trivial; distinct by (hierarchy, form kind, static source type, dynamic kind, target / clause list, method)"
+	c.Rule = "a case is one (hierarchy, form): hierarchies generated by Dispatch.tla (all single-embedding chains with n <= 3, a seeded share of the two-embedding shapes with n = 3, seeded simulation of n = 4 with shadowing), each crossed with every legal call / interface / assertion / type-switch / host-interface form on a T1 object; forms whose dynamic value is a nil interface are counted as trivial; distinct by (hierarchy, form kind, static source type, dynamic kind, target / clause list, method)"
 	c.Assumptions = []string{
 		"the Go toolchain (native build of the same generated program) validates the specification: on every unlisted disagreement, on two programs per listed finding signature, and on a sample of agreeing programs",
 		"types are structurally distinct (private counter field per type); every embedded pointer is non-nil",
@@ -585,7 +608,7 @@ func run(c *fw.Ctx) error {
 		"sort.Sort on a 2-element collection calls Len, Less(1,0), Swap(1,0) in that order; fmt looks for error before fmt.Stringer",
 		"forms are evaluated on T1 objects only; T2..Tn take part as embedded types and as assertion targets",
 	}
-	ck := &checker{c: c, byClass: map[string]int{}, corroborated: map[string]int{}, unlisted: map[string]int{}, seenHier: map[string]bool{}}
+	ck := &checker{c: c, classMembers: map[string]int{}, classDeviate: map[string]int{}, byClass: map[string]int{}, corroborated: map[string]int{}, unlisted: map[string]int{}, seenHier: map[string]bool{}}
 	if p := os.Getenv("VERIF_C05_DUMP"); p != "" {
 		f, err := os.Create(p)
 		if err != nil {
@@ -626,14 +649,14 @@ func run(c *fw.Ctx) error {
 		slices := 12
 		for s := 0; s < slices; s++ {
 			lo, hi := s*(hi3+1)/slices, (s+1)*(hi3+1)/slices-1
-			jobs = append(jobs, tlcJob{name: fmt.Sprintf("chain.%d", s), cfg: cfg("Spec", 3, "chain", 100, c.Seed, lo, hi, allInvs), workers: 4, native: 20})
+			jobs = append(jobs, tlcJob{name: fmt.Sprintf("chain.%d", s), cfg: cfg("Spec", 3, "chain", 100, c.Seed, lo, hi, allInvs), workers: 4, native: 25})
 		}
 		for s := 0; s < slices; s++ {
 			lo, hi := s*(hi3+1)/slices, (s+1)*(hi3+1)/slices-1
-			jobs = append(jobs, tlcJob{name: fmt.Sprintf("fork.%d", s), cfg: cfg("Spec", 3, "fork", 100, c.Seed, lo, hi, allInvs), workers: 4, native: 60})
+			jobs = append(jobs, tlcJob{name: fmt.Sprintf("fork.%d", s), cfg: cfg("Spec", 3, "fork", 20, c.Seed, lo, hi, allInvs), workers: 4, native: 25})
 		}
 		for s := 0; s < 8; s++ {
-			jobs = append(jobs, tlcJob{name: fmt.Sprintf("sim4.%d", s), cfg: cfg("SpecSim", 4, "any", 100, c.Seed, 0, 0, allInvs), sim: true, num: 5, seed: c.Seed*100 + int64(s), native: 10})
+			jobs = append(jobs, tlcJob{name: fmt.Sprintf("sim4.%d", s), cfg: cfg("SpecSim", 4, "any", 100, c.Seed, 0, 0, allInvs), sim: true, num: 1, seed: c.Seed*100 + int64(s), native: 8})
 		}
 	}
 	if os.Getenv("VERIF_C05_COVERAGE") != "" {
@@ -649,7 +672,18 @@ func run(c *fw.Ctx) error {
 		pc, _ = strconv.Atoi(parts[2])
 		nat, _ = strconv.Atoi(parts[3])
 		jobs = nil
-		for s := 0; s < 4; s++ {
+		if shape == "sim" {
+			for s := 0; s < 4; s++ {
+				jobs = append(jobs, tlcJob{name: fmt.Sprintf("sim4.%d", s), cfg: cfg("SpecSim", n, "any", 100, c.Seed, 0, 0, allInvs), sim: true, num: 1, seed: c.Seed*100 + int64(s), native: nat})
+			}
+		}
+		if len(parts) >= 6 {
+			lo, _ := strconv.Atoi(parts[4])
+			hi, _ := strconv.Atoi(parts[5])
+			jobs = append(jobs, tlcJob{name: "dev", cfg: cfg("Spec", n, shape, pc, c.Seed, lo, hi, allInvs), workers: 4, native: nat})
+			shape = "sim"
+		}
+		for s := 0; s < 4 && shape != "sim"; s++ {
 			lo, hi := s*(hi3+1)/4, (s+1)*(hi3+1)/4-1
 			jobs = append(jobs, tlcJob{name: "dev", cfg: cfg("Spec", n, shape, pc, c.Seed, lo, hi, allInvs), workers: 4, native: nat})
 		}
@@ -658,8 +692,9 @@ func run(c *fw.Ctx) error {
 	if c.Quick() {
 		simDepth = 24
 	}
-	// a few pipelines in parallel: TLC (workers) then children
-	const lanes = 4
+	// two pipelines in parallel, each TLC (4 workers) then children: at most 8 JVM worker
+	// threads at any time (the machine is shared)
+	const lanes = 2
 	var wg sync.WaitGroup
 	errs := make(chan error, len(jobs))
 	jobCh := make(chan tlcJob)
@@ -680,8 +715,17 @@ func run(c *fw.Ctx) error {
 					}
 					bs = append(bs, &b)
 				}
-				res, err := c.TLC(fw.TLCOpts{Dir: "spec/core", Module: "Dispatch", Cfg: "gen.cfg", Files: map[string][]byte{"gen.cfg": j.cfg},
-					Simulate: j.sim, Num: j.num, Depth: simDepth, Seed: j.seed, Workers: j.workers, OnBeh: on, Timeout: 9 * time.Minute, HeapMB: 2500, Coverage: j.coverage})
+				var res *fw.TLCResult
+				var err error
+				for attempt := 0; attempt < 3; attempt++ {
+					bs, perr = nil, nil
+					res, err = c.TLC(fw.TLCOpts{Dir: "spec/core", Module: "Dispatch", Cfg: "gen.cfg", Files: map[string][]byte{"gen.cfg": j.cfg},
+						Simulate: j.sim, Num: j.num, Depth: simDepth, Seed: j.seed, Workers: j.workers, OnBeh: on, Timeout: 9 * time.Minute, HeapMB: 2500, Coverage: j.coverage})
+					// a JVM killed from outside (SIGTERM/SIGKILL, e.g. somebody's pkill of stray TLCs) is started again
+					if err == nil || !(strings.Contains(err.Error(), "(exit 143)") || strings.Contains(err.Error(), "(exit 137)")) {
+						break
+					}
+				}
 				if err != nil {
 					errs <- fmt.Errorf("%s: %v", j.name, err)
 					continue
@@ -732,7 +776,7 @@ func run(c *fw.Ctx) error {
 		return err
 	}
 	c.Exhaustive = false
-	c.Extra["exhaustive_parts"] = "thorough: every connected unambiguous hierarchy with n <= 3 (chains and two-embedding shapes) x every form; quick: seeded 15% of the chains, 1% of the two-embedding shapes"
+	c.Extra["exhaustive_parts"] = "thorough: every single-embedding hierarchy (chain) with n <= 3 x every form (3087 hierarchies), plus a seeded 20% of the two-embedding shapes with n = 3 and 400 simulated n = 4 hierarchies; quick: seeded 15% of the chains, 1% of the two-embedding shapes, 24 n = 4 hierarchies"
 	c.Extra["hierarchies_run"] = ck.hierarchies
 	c.Extra["forms_evaluated"] = ck.formsTotal
 	c.Extra["forms_deviating"] = ck.formsFailed
@@ -742,6 +786,8 @@ func run(c *fw.Ctx) error {
 	c.Extra["native_reference_forms_agreeing_with_model"] = ck.nativeForms
 	c.Extra["tlc_wall_s_sum"] = tlcWall.Seconds()
 	c.Extra["deviations_by_signature"] = ck.byClass
+	c.Extra["listed_class_forms_run"] = ck.classMembers
+	c.Extra["listed_class_forms_deviating"] = ck.classDeviate
 	fmt.Printf("C05: %d hierarchies, %d forms evaluated (%d deviating, %d unlisted signatures), %d interpreter runs, %d native reference programs (%d forms), TLC %.1fs (sum over JVMs)\n",
 		ck.hierarchies, ck.formsTotal, ck.formsFailed, len(ck.unlisted), ck.rounds, ck.nativeRuns, ck.nativeForms, tlcWall.Seconds())
 	if len(ck.unlisted) > 0 {
@@ -758,6 +804,13 @@ func run(c *fw.Ctx) error {
 		}
 	}
 	return nil
+}
+
+func classID(x string) string {
+	if i := strings.IndexByte(x, ' '); i > 0 {
+		return x[:i]
+	}
+	return x
 }
 
 func tail(s string, n int) string {
